@@ -23,7 +23,7 @@ LEVEL = {
  "C15": ("proof", "Theorems: the complement of a resolved bound is the non-empty ones among [0,s) and [e,n), in that order, without fallbacks; they select the parts before followed by the parts after; all-covering bounds are rejected. Tied by pairs (-m vs the equivalent explicit request) on the implementation."),
  "C16": ("proof", "Theorems about the modelled regex family: matches are sorted, non-overlapping, non-empty, in range; fields and matches tile the record (plain and -g); the output loop cannot index out of range; -r text is inserted literally. That the regex crate computes the same matches on this family is what the run checks."),
  "C17": ("proof", "PARTIAL. Theorems about an accounting model: the fixed-memory machine's pending items only shrink and its account is independent of the input; the record paths' account is linear in the record. The run measures peak RSS of the real binary while the input grows 64x along the dimension each bound must not depend on."),
- "C18": ("proof", "Proved: what the parser accepts is well-formed (non-zero 32-bit indexes, same-sign ranges non-decreasing), rejection yields status 1 and no output whatever the input, plain text is reproduced. The full accept/reject/structure behaviour is compared with the code exhaustively for every string up to length 4 (5 thorough) over the statement's alphabet."),
+ "C18": ("proof", "Theorems (Coq, axiom-free): a single bound is accepted iff it belongs to a grammar written from the documentation (N, N:M, N:, :M; optional sign, non-zero 32-bit integers, same-sign ranges not decreasing, optional =fallback that may hold : and =), and the bound built is the one the grammar assigns (C18_bound_accepted_iff); a list without format text is accepted iff it is a comma-separated list of such bounds (C18_list_accepted_iff, C18_list_structure); accepted lists have no zero index; rejection yields status 1 and no output whatever the input; plain filler text is reproduced byte for byte. For format strings the accept/reject decision and the rendering are the executable model of the scanner, compared with the code exhaustively over the statement's alphabet up to length 4 (5 in the brace alphabet; longer in thorough) plus random longer strings, including the parsed structure."),
  "C19": ("proof", "Theorem C19_decision_table: for every one of the 30720 abstract option sets the model of parse_args plus the -M eligibility test decides as the statement says (finite domain, computed inside the kernel, bound in the statement); -M eligibility characterised; regex+join/-p without replacement fails every record. Tied by option subsets and reorderings on the real binary."),
 }
 
